@@ -45,8 +45,10 @@ type JoinScenario struct {
 	StopKind          string `json:"stop_kind,omitempty"`
 	StopBeforeRelease bool   `json:"stop_before_release,omitempty"`
 	StopDelay         int64  `json:"stop_delay_ns,omitempty"`
-	NilCtx            bool   `json:"v1_nil_ctx,omitempty"`      // v1: leave Opts.Ctx nil
-	ReleasedCap       int    `json:"v1_released_cap,omitempty"` // v1 no-copy: capacity of the Released channel
+	PreNew            int    `json:"steps_before_new,omitempty"` // that many leading steps are written into the (buffered) input before the discipline is created
+	CloseBeforeNew    bool   `json:"close_before_new,omitempty"` // all steps fit the buffer: the input is written and closed before creation
+	NilCtx            bool   `json:"v1_nil_ctx,omitempty"`       // v1: leave Opts.Ctx nil
+	ReleasedCap       int    `json:"v1_released_cap,omitempty"`  // v1 no-copy: capacity of the Released channel
 }
 
 func (sc JoinScenario) divider() int64 {
@@ -110,10 +112,11 @@ type joinSys struct {
 	cancel  func()
 }
 
-func newJoinSys(sc JoinScenario) (*joinSys, error) {
+func newJoinSys(sc JoinScenario, pre func(send func(p []int), closeIn func())) (*joinSys, error) {
 	switch sc.Disc {
 	case "v2join":
 		in := make(chan int, sc.InCap)
+		pre(func(p []int) { in <- p[0] }, func() { close(in) })
 		d, err := v2join.New(v2join.Opts[int]{Input: in, JoinSize: sc.J, NoCopy: sc.NoCopy, Timeout: time.Duration(sc.Timeout), TimeoutInaccuracy: sc.Inacc})
 		if err != nil {
 			return nil, err
@@ -133,6 +136,7 @@ func newJoinSys(sc JoinScenario) (*joinSys, error) {
 		return s, nil
 	case "unite":
 		in := make(chan []int, sc.InCap)
+		pre(func(p []int) { in <- p }, func() { close(in) })
 		d, err := unite.New(unite.Opts[int]{Input: in, JoinSize: sc.J, NoCopy: sc.NoCopy, Timeout: time.Duration(sc.Timeout), TimeoutInaccuracy: sc.Inacc})
 		if err != nil {
 			return nil, err
@@ -152,6 +156,7 @@ func newJoinSys(sc JoinScenario) (*joinSys, error) {
 		return s, nil
 	case "v1join":
 		in := make(chan int, sc.InCap)
+		pre(func(p []int) { in <- p[0] }, func() { close(in) })
 		ctx, cancel := context.WithCancel(context.Background())
 		opts := v1join.Opts[int]{Ctx: ctx, Input: in, JoinSize: sc.J, Timeout: time.Duration(sc.Timeout), TimeoutInaccuracy: sc.Inacc}
 		if sc.NilCtx {
@@ -197,7 +202,48 @@ func runJoin(sc JoinScenario, inBubble bool, rng *rand.Rand) *JoinTrace {
 	base := time.Now()
 	now := func() int64 { return int64(time.Since(base)) }
 	tr.T0 = 0
-	sys, err := newJoinSys(sc)
+	next := 0
+	var prev []int
+	mkPayload := func(st JoinStep) []int {
+		var payload []int
+		if st.Resend && prev != nil {
+			payload = prev
+		} else {
+			n := st.Len
+			if sc.Disc != "unite" {
+				n = 1
+			}
+			payload = make([]int, n, n+st.Spare)
+			if st.Nil && sc.Disc == "unite" {
+				payload = nil
+			}
+			for i := range payload {
+				payload[i] = next
+				next++
+			}
+		}
+		prev = payload
+		return payload
+	}
+	preNew := min(sc.PreNew, len(sc.Steps), sc.InCap)
+	if sc.CloseBeforeNew && (sc.PreNew < len(sc.Steps) || len(sc.Steps) > sc.InCap) {
+		sc.CloseBeforeNew = false
+	}
+	closedBeforeNew := false
+	sys, err := newJoinSys(sc, func(send func(p []int), closeIn func()) {
+		for _, st := range sc.Steps[:preNew] {
+			payload := mkPayload(st)
+			ptr, cp := sliceID(payload)
+			rec := inRec{A: len(tr.InData), B: len(tr.InData) + len(payload), WS: 0, WC: 0, Ptr: ptr, Cap: cp, slice: payload}
+			send(payload)
+			tr.InData = append(tr.InData, payload...)
+			tr.In = append(tr.In, rec)
+		}
+		if sc.CloseBeforeNew {
+			closeIn()
+			closedBeforeNew = true
+		}
+	})
 	if err != nil {
 		tr.Rejected = err.Error()
 		return tr
@@ -230,9 +276,7 @@ func runJoin(sc JoinScenario, inBubble bool, rng *rand.Rand) *JoinTrace {
 	wg.Add(1)
 	go func() {
 		defer wg.Done()
-		next := 0
-		var prev []int
-		for _, st := range sc.Steps {
+		for _, st := range sc.Steps[preNew:] {
 			if st.Gap > 0 {
 				select {
 				case <-time.After(time.Duration(st.Gap)):
@@ -240,24 +284,7 @@ func runJoin(sc JoinScenario, inBubble bool, rng *rand.Rand) *JoinTrace {
 					return
 				}
 			}
-			var payload []int
-			if st.Resend && prev != nil {
-				payload = prev
-			} else {
-				n := st.Len
-				if sc.Disc != "unite" {
-					n = 1
-				}
-				payload = make([]int, n, n+st.Spare)
-				if st.Nil && sc.Disc == "unite" {
-					payload = nil
-				}
-				for i := range payload {
-					payload[i] = next
-					next++
-				}
-			}
-			prev = payload
+			payload := mkPayload(st)
 			ptr, cp := sliceID(payload)
 			rec := inRec{A: len(tr.InData), B: len(tr.InData) + len(payload), WS: now(), Ptr: ptr, Cap: cp, slice: payload}
 			sys.send(payload)
@@ -273,7 +300,9 @@ func runJoin(sc JoinScenario, inBubble bool, rng *rand.Rand) *JoinTrace {
 			}
 		}
 		tr.InputClosed = now()
-		sys.closeIn()
+		if !closedBeforeNew {
+			sys.closeIn()
+		}
 	}()
 
 	// consumer (this goroutine)
@@ -1069,6 +1098,13 @@ func genJoinScenario(rng *rand.Rand, g joinGen) JoinScenario {
 	}
 	if sc.Disc == "v1join" {
 		sc.ReleasedCap = rng.IntN(2)
+	}
+	if sc.InCap > 0 && rng.IntN(5) == 0 {
+		sc.PreNew = 1 + rng.IntN(sc.InCap)
+		if sc.PreNew >= len(sc.Steps) && len(sc.Steps) <= sc.InCap && rng.IntN(2) == 0 {
+			sc.CloseBeforeNew = true // everything is already there, and the input closed, when the discipline starts
+			sc.FinalGap = 0
+		}
 	}
 	if g.Stop != 0 && sc.Disc == "v1join" {
 		sc.StopKind = []string{"stop", "cancel"}[rng.IntN(2)]
